@@ -7,6 +7,7 @@ import B3.Spec
 import B3.Gen.RsPortable
 import B3.Gen.Arith
 import B3.Model.Rs
+import B3.B3sum.Drv
 open B3
 
 def hexDigit (n : Nat) : Char := if n < 10 then Char.ofNat (48 + n) else Char.ofNat (87 + n)
@@ -299,6 +300,10 @@ def step (s : DState) (line : String) : DState × String :=
       (s, hexOfBytes (bytesOfWords m) ++ ";" ++ hexOfBytes (bytesOfWords sp))
     | _, _, _, _, _ => bad
   | [""] => (s, "")
+  | "P" :: rest => match B3sum.stepLine ("P" :: rest) with
+    -- b3sum ops (model of b3sum/src/main.rs); the property-level oracle for these is in the generator module
+    | some o => (s, o ++ ";-")
+    | none => bad
   | _ => bad
 
 partial def loop (h : IO.FS.Stream) (out : IO.FS.Stream) (s : DState) : IO Unit := do
